@@ -67,7 +67,52 @@ def rule_segments(fx, rep, nxt):
             ok = False
             rep.violation("C10-SEGMENTS", f"C10-SEGMENTS/{use_stage}/{fld}", f"MovePicker::next line {t.get('line')}: stage {use_stage} selects moves up to `self.{fld}`, which is written in stages {sorted(str(w) for w in writes)}: "
                           "a segment boundary that still moves after its segment was generated lets the stage run into moves already yielded (or miss some)", {"fn": nxt.name, "file": nxt.file, "line": t.get("line")})
-    rep.rule("C10-SEGMENTS", n, 1, ok, "segment limits are fixed before the stage that uses them")
+    # a remembered move (killer / counter move) that is yielded out of the quiets must have been moved out of the segment that
+    # is scored and yielded later: on every path to such a yield the start of that segment (`first_quiet`) was advanced - by an
+    # assignment in `next` or by a helper that advances it on every one of its paths (seed C10-7b: the helper skipped the swap
+    # *and the increment* when the move already stood at the head of the segment, so it was yielded again among the quiets)
+    adv_field = None
+    for bb, t in nxt.calls_to("MovePicker::next_best_move"):
+        pass
+    inc_blocks, cond_helpers = set(), []
+    cands = {}
+    for wb, j, st in nxt.stmts():
+        if st["k"] == "assign" and st["lhs"]["l"] == 1:
+            f = [p.get("n") for p in st["lhs"].get("p", []) if isinstance(p, dict)]
+            if len(f) == 1:
+                e = deep_strip(nxt.expr(st["rv"].get("op"), expand_named=True, at=wb)) if st["rv"]["k"] == "use" else None
+                if e is not None and any(isinstance(x, tuple) and x and x[0] == "binop" and x[1].startswith("Add") for x in walk(e)) and self_field_in(e, f[0]):
+                    cands.setdefault(f[0], set()).add(wb)
+    for hb_bb, ht in nxt.calls():
+        hb = fx.body(callee_name(ht)) if callee_name(ht) else None
+        if hb is None or hb is nxt or "move_picker::MovePicker::" not in norm(hb.name) or hb.kind != "AssocFn":
+            continue
+        for wb, j, st in hb.stmts():
+            if st["k"] == "assign" and st["lhs"]["l"] == 1:
+                f = [p.get("n") for p in st["lhs"].get("p", []) if isinstance(p, dict)]
+                if len(f) == 1:
+                    e = deep_strip(hb.expr(st["rv"].get("op"), expand_named=True, at=wb)) if st["rv"]["k"] == "use" else None
+                    if e is not None and any(isinstance(x, tuple) and x and x[0] == "binop" and x[1].startswith("Add") for x in walk(e)) and self_field_in(e, f[0]):
+                        if hb.must_pass(0, [wb], hb.return_blocks()):
+                            cands.setdefault(f[0], set()).add(hb_bb)
+                        else:
+                            cond_helpers.append((f[0], hb_bb, hb))
+    remembered = [(yb, bb, e, line, label) for (yb, bb, e, line, label) in all_yields(fx, nxt) if yb is nxt and find_calls(e, "KillersTable::get_0", "KillersTable::get_1", "CountermoveTable::get")]
+    for (yb, bb, e, line, label) in remembered:
+        n += 1
+        good = any(any(nxt.block_dominates(ib, bb) and ib != bb for ib in blocks) for f, blocks in cands.items())
+        rep.obligation(good)
+        if not good:
+            ok = False
+            via = [hb for (f, hbb, hb) in cond_helpers if nxt.block_dominates(hbb, bb)]
+            why = f"`{via[0].name}` advances the start of the quiet segment only on some of its paths" if via else "the start of the quiet segment is not advanced on every path to the yield"
+            rep.violation("C10-SEGMENTS", f"C10-SEGMENTS/pulled-forward/{label}", f"MovePicker::next line {line} yields a remembered move found among the quiets, but {why}: the move stays inside the segment that is scored and yielded afterwards and comes out twice",
+                          {"fn": nxt.name, "file": nxt.file, "line": line})
+    rep.rule("C10-SEGMENTS", n, 1, ok, "segment limits are fixed before the stage that uses them; remembered moves leave the quiet segment when yielded")
+
+
+def self_field_in(e, fld):
+    return any(isinstance(x, tuple) and len(x) == 3 and x[0] == "field" and x[2] == fld and deep_strip(x[1])[:2] == ("arg", 1) for x in walk(e))
 
 
 def rule_loudset(fx, rep, nxt):
@@ -292,7 +337,20 @@ def rule_dedup(fx, rep, nxt, nbm):
         if not good:
             ok = False
             rep.violation("C10-DEDUP", "C10-DEDUP/next_best_move", f"next_best_move line {line} returns a move without skipping the hash move", {"fn": nbm.name, "file": nbm.file, "line": line})
-    rep.rule("C10-DEDUP", n, 6, ok, "yields guarded by inequality with the hash move")
+    # the comparisons above are only as good as the remembered hash move: it is set by the constructors and never changed
+    # afterwards (seed C10-7a cleared it after the first skip; a later rewind over the same slot then yields the move again)
+    for b in fx.fn_bodies():
+        if "::tests::" in b.name or "move_picker::MovePicker::" not in norm(b.name):
+            continue
+        ctor = (b.local_ty(0) or "").endswith("move_picker::MovePicker")
+        for (wb, wi, adt, fld, kind, place) in b.field_writes():
+            if norm(adt).endswith("move_picker::MovePicker") and fld == "previous_best_move" and not ctor:
+                n += 1
+                ok = False
+                rep.obligation(False)
+                rep.violation("C10-DEDUP", f"C10-DEDUP/hash-move-writer/{norm(b.name).split('::')[-1]}", f"`{b.name}` changes the remembered hash move after construction: the `!= hash move` tests of the later stages then compare against something else, and the hash move can be yielded again",
+                              {"fn": b.name, "file": b.file, "line": b.line_of(wb, wi)})
+    rep.rule("C10-DEDUP", n, 6, ok, "yields guarded by inequality with the hash move; the hash move is never changed")
 
 
 def stage_assignments(fx, nxt):
@@ -489,6 +547,10 @@ def rule_loud(fx, rep, nxt):
 
 M = "src/engine/search/move_picker.rs"
 MUTANTS = [
+    {"name": "remembered move already at the head of the quiets is not taken out of the segment (seed C10-7b)", "expect": "C10-SEGMENTS/pulled-forward",
+     "edits": [(M, "                        self.moves.swap(self.first_quiet, i);\n                        self.first_quiet += 1;\n\n                        if Some(killer1) != self.previous_best_move {", "                        if i > self.first_quiet {\n                            self.moves.swap(self.first_quiet, i);\n                            self.first_quiet += 1;\n                        }\n\n                        if Some(killer1) != self.previous_best_move {")]},
+    {"name": "remembered hash move cleared after its first skip (seed C10-7a)", "expect": "C10-DEDUP/hash-move-writer",
+     "edits": [(M, "            if Some(best_move) == self.previous_best_move {\n                continue;\n            }", "            if Some(best_move) == self.previous_best_move {\n                self.previous_best_move = None;\n                continue;\n            }")]},
     {"name": "rewind to the parked captures placed after the counter-move scan (seed C10-6b)", "expect": "C10-STAGE/skip-parked",
      "edits": [(M, "            match self.first_bad_capture {\n                // If we didn't see any bad captures before, we can skip straight to the end\n                None => self.stage = ScoreQuiets,\n\n                // If we saw any bad captures, go back and try those too\n                Some(first_bad_capture_idx) => {\n                    self.idx = first_bad_capture_idx;\n                    self.stage = BadCaptures;\n                }\n            }\n", "            self.stage = ScoreQuiets;\n"),
                (M, "        if self.stage == BadCaptures {", "        if self.stage == ScoreQuiets {\n            if let Some(first_bad_capture_idx) = self.first_bad_capture.take() {\n                self.idx = first_bad_capture_idx;\n                self.stage = BadCaptures;\n            }\n        }\n\n        if self.stage == BadCaptures {")]},
